@@ -211,7 +211,7 @@ func (ex *Exec) rootOfAddr(v ssa.Value, ms *modSet) {
 			ex.rootOfAddr(a.X, ms)
 		} else {
 			owner := a.X.Type().Underlying().(*types.Pointer).Elem()
-			if isOpaqueNamed(owner) {
+			if isOpaqueNamed(owner) && !isListElementValue(owner, a.Field) {
 				return
 			}
 			ms.heaps[fieldHeapName(owner, a.Field)] = ArraySort(SInt, ex.vc.sortOf(owner.Underlying().(*types.Struct).Field(a.Field).Type()))
@@ -459,6 +459,19 @@ func (ex *Exec) callModified(in ssa.CallInstruction, ms *modSet) {
 				}
 			case strings.HasPrefix(name, "(*strings.Builder)."):
 				ms.heaps[builderHeap] = ArraySort(SInt, SStr)
+			case strings.HasPrefix(name, "(*container/list.List).Push"):
+				ms.alloc = true
+				if pt, ok := callee.Signature.Results().At(0).Type().Underlying().(*types.Pointer); ok {
+					if stt, ok := pt.Elem().Underlying().(*types.Struct); ok {
+						for i := 0; i < stt.NumFields(); i++ {
+							if stt.Field(i).Name() == "Value" {
+								ms.heaps[fieldHeapName(pt.Elem(), i)] = ArraySort(SInt, SVal)
+							}
+						}
+					}
+				}
+			case name == "container/list.New":
+				ms.alloc = true
 			}
 			return
 		}
@@ -508,6 +521,9 @@ func (ex *Exec) callModified(in ssa.CallInstruction, ms *modSet) {
 		if v, ok := ex.con.Observe[c.Method.Name()]; ok {
 			ms.ghosts = append(ms.ghosts, "obs:"+v)
 		}
+		if v, ok := ex.con.Counts[c.Method.Name()]; ok {
+			ms.ghosts = append(ms.ghosts, "cnt:"+v)
+		}
 	}
 	if c.IsInvoke() {
 		if ex.P.isPureMethod(c.Method.Name(), c.Value.Type()) {
@@ -528,6 +544,11 @@ func (ex *Exec) callModified(in ssa.CallInstruction, ms *modSet) {
 			ms.alloc = true
 			return
 		}
+	}
+	if ex.con != nil && ex.con.CallbackPure && !c.IsInvoke() && c.StaticCallee() == nil {
+		// function-value calls assumed not to touch modelled state (contract option callbacks_pure)
+		ms.alloc = true
+		return
 	}
 	ms.all = true
 	ms.alloc = true
